@@ -504,6 +504,151 @@ theorem query_after_setVar_is_fresh (fuel : Nat) (d : Desc) (ops : List Op) (i :
     (step fuel s' (.query i n P)).2 = resolve s'.desc P i n false fuel :=
   query_fresh_step fuel _ (step_preserves fuel _ _ (cache_coherent fuel ops _ (inv_init fuel d))) i n P
 
+/-! ### components are stored by value: an update of one component never reaches another -/
+
+/-- the component an operation addresses (`none`: the variable setters and the opaque reads) -/
+def opTarget : Op → Option (Nat × S)
+  | .setVar i n _ _ => some (i, n)
+  | .delVar i n _ => some (i, n)
+  | .setOption i n _ _ => some (i, n)
+  | .removeOption i n _ => some (i, n)
+  | .addComp i n _ => some (i, n)
+  | .updateComp i n _ => some (i, n)
+  | .deleteComp i n => some (i, n)
+  | .query i n _ => some (i, n)
+  | .queryF i n _ _ => some (i, n)
+  | .touchComp i n => some (i, n)
+  | _ => none
+
+/-- **update_is_local**: whatever one call of the interface does, the stored description of every component it
+does not address is exactly what it was - a component is held by value, so components that were added (or
+replaced) with equal bodies, e.g. stamped out of one template dictionary of the caller, share nothing: setting
+or deleting a variable / an option of one of them, replacing or deleting it, cannot rewrite another one. -/
+theorem update_is_local (fuel : Nat) (s : St) (op : Op) (i' : Nat) (n' : S)
+    (h : ∀ i n, opTarget op = some (i, n) → ¬(i' = i ∧ n' = n)) :
+    findComp (step fuel s op).1.desc.comps i' n' = findComp s.desc.comps i' n' := by
+  cases op with
+  | setVar i n x v =>
+    have hne := h i n rfl
+    simp only [step]
+    split
+    · rfl
+    · split
+      · exact findComp_modComp _ i n i' n' hne _
+      · rfl
+  | delVar i n x =>
+    have hne := h i n rfl
+    simp only [step]
+    split
+    · rfl
+    · split
+      · split
+        · rfl
+        · exact findComp_modComp _ i n i' n' hne _
+      · rfl
+  | setOption i n route v =>
+    have hne := h i n rfl
+    simp only [step]
+    split
+    · rfl
+    · split
+      · split
+        · exact findComp_modComp _ i n i' n' hne _
+        · rfl
+      · split
+        · exact findComp_modComp _ i n i' n' hne _
+        · rfl
+  | removeOption i n route =>
+    have hne := h i n rfl
+    simp only [step]
+    split
+    · rfl
+    · split
+      · split
+        · split
+          · rfl
+          · exact findComp_modComp _ i n i' n' hne _
+        · rfl
+      · split
+        · exact findComp_modComp _ i n i' n' hne _
+        · rfl
+  | setGlobalVar x v => rfl
+  | setStageVar i x v =>
+    simp only [step]
+    split <;> rfl
+  | setPlatGlobalVar P x v =>
+    simp only [step]
+    split <;> rfl
+  | setPlatStageVar P i x v =>
+    simp only [step]
+    split <;> rfl
+  | addComp i n body =>
+    have hne := h i n rfl
+    simp only [step]
+    split
+    · rfl
+    · exact findComp_append ⟨i, n, body⟩ i' n' hne _
+  | updateComp i n body =>
+    have hne := h i n rfl
+    simp only [step]
+    split
+    · rfl
+    · exact findComp_modComp _ i n i' n' hne _
+  | deleteComp i n =>
+    have hne := h i n rfl
+    simp only [step]
+    split
+    · rfl
+    · exact findComp_delComp i n i' n' hne _
+  | query i n P => rw [show (step fuel s (.query i n P)).1.desc = s.desc from queryStep_desc fuel s i n P]
+  | queryF i n P f =>
+    simp only [step]
+    split
+    · rw [queryStep_desc fuel s i n P]
+    · rfl
+  | read => rfl
+  | touchComp i n =>
+    simp only [step]
+    split <;> rfl
+  | touchVars => rfl
+
+private theorem findComp_append_self (i : Nat) (n : S) (b : Fields) : ∀ cs, findComp cs i n = none →
+    findComp (cs ++ [⟨i, n, b⟩]) i n = some ⟨i, n, b⟩ := by
+  intro cs
+  induction cs with
+  | nil => intro _; simp [findComp]
+  | cons c r ih =>
+    intro h
+    simp only [findComp] at h
+    split at h
+    · cases h
+    · rename_i hc
+      simp only [List.cons_append, findComp, hc, if_false]
+      exact ih h
+
+/-- **addComp_stores_exactly**: a successful `add_component(description)` stores exactly the description it was
+given (a copy: nothing the caller does with its dictionary afterwards is an update of the configuration) -/
+theorem addComp_stores_exactly (fuel : Nat) (s : St) (i : Nat) (n : S) (body : Fields)
+    (h : findComp s.desc.comps i n = none) :
+    findComp (step fuel s (.addComp i n body)).1.desc.comps i n = some ⟨i, n, body⟩ := by
+  simp only [step, h]
+  exact findComp_append_self i n body _ h
+
+/-- **component_survives_foreign_history**: after ANY history none of whose calls addresses the component `(i', n')`
+- edits, replacements, deletions of its siblings, of components with an equal body, any variable setter, any query -
+its stored description is still exactly what it was -/
+theorem component_survives_foreign_history (fuel : Nat) (i' : Nat) (n' : S) : ∀ (ops : List Op) (s : St),
+    (∀ op ∈ ops, ∀ i n, opTarget op = some (i, n) → ¬(i' = i ∧ n' = n)) →
+    findComp (run fuel s ops).1.desc.comps i' n' = findComp s.desc.comps i' n' := by
+  intro ops
+  induction ops with
+  | nil => intro s _; rfl
+  | cons op r ih =>
+    intro s h
+    simp only [run]
+    rw [ih _ (fun o ho => h o (by simp [ho]))]
+    exact update_is_local fuel s op i' n' (h op (by simp))
+
 /-! ### the graph layer: many views, many entry points, one description -/
 
 /-- an update arriving through any object (`ComponentSpecification.setOption`, the node's `setOption`,
@@ -644,5 +789,22 @@ example : (grun 50 defaultName (init d1)
         (fun a => match a with | .ok v => some v | .error _ => none)
     = [some (.str ['1']), some .null, some (.str ['2']), some .null, some (.str "1.0".toList),
        some (.flt "1.0".toList), none] := by rfl
+
+/-- one body, two names: what a caller that stamps components out of one template dictionary hands in -/
+private def tplBody : Fields :=
+  [("stage".toList, .int 0), ("name".toList, .str ['w']),
+   ("command".toList, .dict [("arguments".toList, .str "%(who)s".toList)]),
+   ("variables".toList, .dict [("who".toList, .str "nobody".toList)])]
+
+/-- two components stamped out of ONE body, then one of them is edited (a variable, an option): the other one
+answers as before -/
+example : (run 50 (init d1) [.addComp 0 "w0".toList tplBody, .addComp 0 "w1".toList tplBody,
+                            .query 0 "w1".toList defaultName,
+                            .setVar 0 "w0".toList "who".toList (.str "world".toList),
+                            .query 0 "w0".toList defaultName, .query 0 "w1".toList defaultName,
+                            .setOption 0 "w0".toList "#command.arguments".toList (.str "edited".toList),
+                            .query 0 "w0".toList defaultName, .query 0 "w1".toList defaultName]).2.map args
+    = [none, none, some (.str "nobody".toList), none, some (.str "world".toList), some (.str "nobody".toList),
+       none, some (.str "edited".toList), some (.str "nobody".toList)] := by rfl
 
 end St4sd.C08
